@@ -51,10 +51,10 @@ func (dv *defaultVerifierSimple) verifyRoot(root *Node) ([]string, []string, err
 	dirsFilesystem := map[string]struct{}{}
 	extraDirs := []string{}
 	if err := fs.WalkDir(
-		os.DirFS(filepath.Join(dv.targetDir, root.path())),
-		".",
+		os.DirFS(dv.targetDir),
+		root.path(),
 		func(path string, d fs.DirEntry, err error) error {
-			dir := filepath.Join(dv.targetDir, root.path(), path)
+			dir := filepath.Join(dv.targetDir, path)
 
 			if err != nil {
 				if errors.Is(err, fs.ErrNotExist) {
